@@ -5,12 +5,14 @@ use crate::Env;
 
 pub mod c01;
 pub mod c02;
+pub mod c16;
 
 /// total number of cases over all shards
 pub fn cases(prop: &str, tier: Tier) -> u64 {
     match prop {
         "C01" => c01::cases(tier),
         "C02" => c02::cases(tier),
+        "C16" => c16::cases(tier),
         _ => panic!("unknown property {}", prop),
     }
 }
@@ -19,6 +21,7 @@ pub fn run_case(prop: &str, env: &Env, ctx: &mut Ctx, idx: u64) {
     match prop {
         "C01" => c01::run_case(env, ctx, idx),
         "C02" => c02::run_case(env, ctx, idx),
+        "C16" => c16::run_case(env, ctx, idx),
         _ => panic!("unknown property {}", prop),
     }
 }
